@@ -750,8 +750,14 @@ func (f *Fn) LoopBodyEntry(s Site) int {
 
 // AfterEdgesMustPass checks: once one of the edges is taken, a site of s is
 // passed before the function exits or the branching vertex is evaluated again.
-func (f *Fn) AfterEdgesMustPass(r *Rule, edges map[[2]int]bool, s *Sites, label string) bool {
+func (f *Fn) AfterEdgesMustPass(r *Rule, edges map[[2]int]bool, s *Sites, label string, exempt ...AtomPred) bool {
 	key := f.Name + ": " + label
+	cutE := map[[2]int]bool{}
+	for _, x := range exempt {
+		for e := range f.GuardEdges(x) {
+			cutE[e] = true
+		}
+	}
 	r.AddSites(len(edges) + s.Len())
 	if len(edges) == 0 || s.Len() == 0 {
 		r.Fail(key, f.P.Pos(f.Body.Pos()), "branch or %q not found in %s (rule would be vacuous)", s.Desc, f.Name)
@@ -761,7 +767,7 @@ func (f *Fn) AfterEdgesMustPass(r *Rule, edges map[[2]int]bool, s *Sites, label 
 	ok := true
 	for e := range edges {
 		for _, tgt := range []int{f.G.Exit, e[0]} {
-			if p := f.FPath([]int{e[1]}, tgt, cut, nil); p != nil {
+			if p := f.FPath([]int{e[1]}, tgt, cut, cutE); p != nil {
 				r.Fail(key, f.P.Pos(f.G.Vs[e[0]].Node.Pos()), "after this branch the function continues without %s; path (lines): %s", s.Desc, f.DescribePath(p))
 				ok = false
 				break
